@@ -25,6 +25,7 @@ func init() {
 var kReasoned = map[string]string{
 	"niltype:core/plugin/pluginconfig.parseConf$1:reflect.TypeOf(conf).Elem()": "fillConf is handed only to the registry, which calls it with the pointer to the config it has just created (defaultConfigContainer.new -> reflect.New(...).Interface(), O18.3): conf is a non-nil pointer, its Type is not nil",
 	// ---- plugin registry: shapes fixed at registration (O18.1 checks every registration call site)
+	"reflectnil:core/plugin.convertFactoryOutParams:out[1].IsNil()": "out[1] exists only when the registered constructor / factory has a second result, and O18.1 fixes the type of that result to `error` at every registration: an interface kind",
 	"index:core/plugin.convertFactoryOutParams:out[1]":               "dominated by numOut < len(out) with numOut in {1,2} (the switch above panics otherwise): len(out) >= 2",
 	"abort:(*core/plugin.pluginConstructor).NewFactory$1:panic(err)": "documented (C18): a config error panics only when the requested factory type has no error result; every factory field of pandora's config structs has one (func() (core.Gun, error), func() (core.Schedule, error))",
 	"abort:(*core/plugin.pluginConstructor).NewFactory$1:panic(fmt.Sprintf(\" out params num expeced to be 1 or 2, but have: %v\", factoryType.NumOut()))": "unreachable arm: isFactoryType admits only 1 or 2 results",
@@ -302,7 +303,7 @@ func runC13(c *Ctx) {
 	c.Rule("O13.4", "make sizes and rand.Intn-family arguments that derive from parsed text are dominated by a lower and an upper bound (sizes) / > 0 (rand), or listed with a reason")
 	c.Rule("O13.5", "explicit panic / zap Panic/Fatal / log.Fatal / os.Exit sites reachable from the input entry points are the listed ones (registration-time programming errors, the CLI's documented exits)")
 	roots := inputRoots(c)
-	runInventory(c, "O13", roots, kReasoned, map[string]string{"index": "O13.1", "slice": "O13.1", "assert": "O13.2", "niltype": "O13.2", "div": "O13.3", "size": "O13.4", "rand": "O13.4", "abort": "O13.5"})
+	runInventory(c, "O13", roots, kReasoned, map[string]string{"index": "O13.1", "slice": "O13.1", "assert": "O13.2", "niltype": "O13.2", "reflectnil": "O13.2", "div": "O13.3", "size": "O13.4", "rand": "O13.4", "abort": "O13.5"})
 	c.Rule("O13.6", "decode errors propagate: every call returning an error inside the ammo decoders is tested and its error returned (wrapped or not) on the non-nil edge")
 	c.Rule("O13.7", "end of input is told apart from a truncated entry: errors.Is(err, io.EOF) is never applied to the result of a pandora helper that wraps read errors")
 	c13Support(c)
@@ -469,7 +470,7 @@ func runC19(c *Ctx) {
 	c.Rule("O19.4", "tainted sizes / rand arguments reachable from any Gun.Shoot are bounded")
 	c.Rule("O19.6", "explicit aborts reachable from any Gun.Shoot are the documented ones")
 	roots := shootRoots(c)
-	runInventory(c, "O19", roots, kReasoned, map[string]string{"index": "O19.1", "slice": "O19.1", "assert": "O19.2", "niltype": "O19.2", "div": "O19.3", "size": "O19.4", "rand": "O19.4", "abort": "O19.6"})
+	runInventory(c, "O19", roots, kReasoned, map[string]string{"index": "O19.1", "slice": "O19.1", "assert": "O19.2", "niltype": "O19.2", "reflectnil": "O19.2", "div": "O19.3", "size": "O19.4", "rand": "O19.4", "abort": "O19.6"})
 	c.Rule("O19.7", "failures are recorded and Shoot returns: no panic / Fatal / Exit site lies on any path after the exchange with the target returned")
 	c19Support(c)
 	c19PostprocessorBody(c)
@@ -663,6 +664,7 @@ func nextResult(v ssa.Value) bool {
 func c13Support(c *Ctx) {
 	P := c.P
 	c13CalcIndexRange(c, "O13.1")
+	c13SpreadNamesGCD(c, "O13.3")
 	// every Iterator.Rand call site passes a length proven > 0
 	n := 0
 	for _, fn := range P.ProdFuncs() {
@@ -1290,4 +1292,67 @@ func isLenCallOf(v, coll ssa.Value) bool {
 		return false
 	}
 	return cl.Call.Args[0] == coll || sameRoots(cl.Call.Args[0], coll)
+}
+
+// c13SpreadNamesGCD decides the fact the reasoned division in SpreadNames rests on: math.GCDM answers 0 for fewer than
+// two numbers, so it must get one weight per listed scenario and be reached only with at least two of them.
+func c13SpreadNamesGCD(c *Ctx, id string) {
+	P := c.P
+	sn := P.Func("components/providers/scenario/config", "", "SpreadNames")
+	if sn == nil || len(sn.Params) != 1 {
+		c.Anchor(id, "components/providers/scenario/config.SpreadNames(input)")
+		return
+	}
+	input := ssa.Value(sn.Params[0])
+	var g *ssa.Call
+	EachInstr(sn, func(in ssa.Instruction) {
+		if cl, ok := in.(*ssa.Call); ok && cl.Call.StaticCallee() != nil && cl.Call.StaticCallee().Name() == "GCDM" {
+			g = cl
+		}
+	})
+	if g == nil {
+		c.Anchor(id, "the math.GCDM call of SpreadNames")
+		return
+	}
+	isLenInput := func(v ssa.Value) bool {
+		cl, ok := Strip(v).(*ssa.Call)
+		if !ok || !IsBuiltinCall(cl, "len") {
+			return false
+		}
+		return DerivesOnly(cl.Call.Args[0], false, func(r ssa.Value) bool { return r == input })
+	}
+	// one weight per listed scenario: the slice is make([]int64, len(input)) (filled by index)
+	okLen := false
+	for _, r := range Roots(g.Call.Args[0], false) {
+		if ms, ok := r.(*ssa.MakeSlice); ok {
+			okLen = isLenInput(ms.Len)
+		} else {
+			okLen = false
+			break
+		}
+	}
+	// at least two scenarios here: len(input) is known to be neither 0 nor 1 (or >= 2)
+	not0, not1, ge2 := false, false, false
+	for _, f := range CmpFactsAt(g) {
+		for _, h := range []Fact{f, {Op: FlipOp(f.Op), X: f.Y, Y: f.X}} {
+			if h.Y == nil || !isLenInput(h.X) {
+				continue
+			}
+			k, isK := ConstInt(h.Y)
+			if !isK {
+				continue
+			}
+			switch {
+			case h.Op == token.NEQ && k == 0, h.Op == token.GTR && k == 0, h.Op == token.GEQ && k == 1:
+				not0 = true
+			case h.Op == token.NEQ && k == 1:
+				not1 = true
+			}
+			if (h.Op == token.GEQ && k >= 2) || (h.Op == token.GTR && k >= 1) {
+				ge2 = true
+			}
+		}
+	}
+	c.Check(okLen && (ge2 || (not0 && not1)), id, fk(sn)+":gcd-of-at-least-two-weights", g.Pos(),
+		fmt.Sprintf("math.GCDM (0 for fewer than two numbers; the result divides every weight) gets a slice made with len(input) elements: %v; and is reached only with len(input) >= 2: %v", okLen, ge2 || (not0 && not1)))
 }
